@@ -21,7 +21,12 @@ class Clause:
     else:
       self.props, self.text, self.name = None, spec, None
     self.text = " ".join(self.text.split())
-    self.node = ast.parse(self.text, mode="eval").body
+    self.let = None
+    src = self.text
+    if src.startswith("let "):   # definition usable by the following hints: "let NAME = EXPR"
+      name, _, src = src[4:].partition("=")
+      self.let = name.strip()
+    self.node = ast.parse(src.strip(), mode="eval").body
 
   def serves(self, prop):
     return prop is None or self.props is None or prop in self.props
